@@ -2,8 +2,9 @@
 
 System recipe (all sub-checks):
   {"n": int, "cplx": bool, "le": [int]*n, "ls": int, "hh": [seed, ...], "b": vec | None, "x0": vec | None,
-   (vec = {"re": [float]*n, "im": [float]*n | None}, multiples of 1/8 in [-4, 4]) "prec": None | {"kind": "hpd", "le": [...], "hh": [...]} | {"kind": "jacobi"}
-   | {"kind": "exact"}, ...}
+   "prec": None | {"kind": "hpd", "le": [...], "ls": int, "hh": [...]} | {"kind": "jacobi"} | {"kind": "exact"},
+   ... sub-check specific keys: "ic" (controller), "nreset", "steps", "cap", "approx", "script", "via"}
+  vec = {"re": [float]*n, "im": [float]*n | None}, multiples of 1/8 in [-4, 4]
   A = Q diag(lam) Q^H, lam_i = 2^(ls + le_i/4), Q = product of Householder reflections whose vectors
   are expanded from the integer seeds by a fixed LCG (dyadic entries), symmetrised once.  The matrix
   is wrapped as a harness-defined EndomorphicOperator that records the inputs it is applied to.
@@ -29,6 +30,14 @@ positions; u = 2^-53, cm = 4(n+2)u bounds a dense complex matrix-vector product
       D' = D + lam_max 4u (s + |x'|) + 4u (|A|_F s + |r'|) + cm |A|_F s
   the oracle's own residual carries one more fresh-evaluation term; the allowed difference between the
   recorded gradient and the oracle residual is 2 (D + D_oracle) (factor 2: second-order terms).
+
+Observed and deliberately tolerated (not part of the C14 statement, no convergence is claimed): once the true
+residual is within 8x that slack ("numerically converged"), a residual recomputation (nreset) replaces the
+recursive residual by one that is no longer orthogonal to the previous direction while alpha = gamma/curv and
+beta = gamma/gamma_prev keep assuming it is.  Forced further iterations (iteration-limit-only controllers,
+convergence_level > 1, unattainable tolerances) can then jump away from the solution, overflow and end with
+ERROR (curv == 0 / NaN); see corpus/C14/breakdown_past_roundoff_floor_*.json.  Classes error_past_floor /
+diverged_past_floor count these runs.
 """
 import numpy as np
 from hypothesis import strategies as st
